@@ -76,14 +76,23 @@ Definition commits_okb (h : hist) : bool :=
 
 (* lines: identities distinct, born at a commit, killed by nobody or by a strict descendant of the birth
    commit; a commit with several parents kills nothing (a merge is the clean union of its parents,
-   optionally adding lines) *)
+   optionally adding lines).  The last conjunct (the killer's tick is not before the birth tick) follows
+   from the tick condition of commits_okb along the ancestry; it is checked directly instead of derived. *)
 Definition line_okb (h : hist) (A : list (list bool)) (l : line) : bool :=
   in_range (ncommits h) (l_born l) &&
   ((l_killer l =? -1) ||
    (in_range (ncommits h) (l_killer l) && ancb A (l_killer l) (l_born l) && negb (l_killer l =? l_born l) &&
-    (Z.of_nat (length (parents_of h (l_killer l))) <=? 1))).
+    (Z.of_nat (length (parents_of h (l_killer l))) <=? 1) &&
+    (tick_of h (l_born l) <=? tick_of h (l_killer l)))).
+
+(* ticks do not decrease from an ancestor to a descendant (implied by the parent condition of commits_okb;
+   checked on the table instead of derived) *)
+Definition anc_ticks_okb (h : hist) (A : list (list bool)) : bool :=
+  forallb (fun c => forallb (fun a => negb (ancb A c a) || (tick_of h a <=? tick_of h c)) (zrange (ncommits h)))
+          (zrange (ncommits h)).
 
 Definition conflict_free (h : hist) : bool :=
+  anc_ticks_okb h (ancs h) &&
   commits_okb h &&
   nodup_zb (map fst (h_paths h)) &&
   nodup_zb (map (fun pl => l_id (snd pl)) (all_lines h)) &&
